@@ -201,6 +201,18 @@ where R: LLLRing, for<'x> &'x R: LLLRingOps<R> {
         while self.data.step < m { 
             self.iterate();
         }
+
+        // `reduce(i, k)` normalizes the pivot of row `i < k` only, 
+        // so the last row (the first row of the result) is normalized here.
+        if m > 0 { 
+            let i = m - 1;
+            if let Some(j) = self.data.nz_col_in(i) { 
+                let u = self.data.target[(i, j)].normalizing_unit();
+                if !u.is_one() { 
+                    self.data.mul_row(i, &u);
+                }
+            }
+        }
     }
 
     fn iterate(&mut self) { 
